@@ -23,3 +23,9 @@ Lemma ga_bypass_is_choose_verifier : forall internal sp,
   ga_bypass_selected gen_register_control internal (asp_always_pass sp) =
   au_verifier_eqb (au_choose_verifier internal sp) AuAlwaysPass.
 Proof. intros [] sp; unfold au_choose_verifier; destruct (asp_always_pass sp); reflexivity. Qed.
+
+Lemma ga_ssh_gateway_shape : ga_sshgw_ok gen_ssh_gateway = true.
+Proof. vm_compute. reflexivity. Qed.
+
+Lemma ga_new_auth_verifier_shape : ga_newverifier_ok gen_new_auth_verifier = true.
+Proof. vm_compute. reflexivity. Qed.
